@@ -290,6 +290,73 @@ def r20_5(ctx, counts) -> RuleResult:
     return res
 
 
+def r20_6(ctx, counts) -> RuleResult:
+    """apply_schema is skipped only for a tree that still has its types"""
+    from ..engine.cfg import CFG, node_writes
+    from ..engine.dataflow import branch_facts
+    model: Model = ctx.model
+    res = RuleResult(
+        'R20.6', 'APPLY-SCHEMA-SKIP-REQUIRES-TYPES',
+        'XPathContext.schema = proxy clears the types of the tree (clear_types) and applies the '
+        'proxy again; the same tree can be shared by contexts. apply_schema may skip its work '
+        'when the tree already carries this proxy, but a tree that has been cleared still '
+        'records the proxy in tree.schema. So every return of an apply_schema implementation '
+        'that is reached before any write of xsd_type / tree.schema and under the fact '
+        '`self.tree.schema is schema` is also under a fact that the node is typed '
+        '(`self.xsd_type is not None`, `self.is_typed`) - or every clear_types() that resets '
+        'xsd_type also resets tree.schema. Otherwise re-setting the same proxy (or None and the '
+        'proxy again) leaves the document untyped: data(v) is untypedAtomic instead of xs:int.')
+    n = 0
+    clearers = [f for f in model.all_functions() if f.name == 'clear_types' and any(
+        isinstance(x, ast.Assign) and any(dotted(t).endswith('.xsd_type') for t in x.targets)
+        for x in ast.walk(f.node))]
+    resets = bool(clearers) and all(any(
+        isinstance(x, ast.Assign) and any(dotted(t).endswith('tree.schema') for t in x.targets)
+        and isinstance(x.value, ast.Constant) and x.value.value is None
+        for x in ast.walk(f.node)) for f in clearers)
+    for f in sorted(model.all_functions(), key=lambda q: q.key):
+        if f.name != 'apply_schema' or f.cls is None:
+            continue
+        cfg = CFG(f.node)
+        facts = branch_facts(cfg)
+
+        def writes_types(nd) -> bool:
+            return any(t.endswith('.xsd_type') or t.endswith('tree.schema')
+                       for t, _ in node_writes(nd))
+        for nd in cfg.nodes:
+            if nd.kind != 'stmt' or not isinstance(nd.ast, ast.Return):
+                continue
+            fs = facts[nd.id]
+            same = [fa for fa in fs if fa.startswith('+') and 'schema is schema' in fa]
+            if not same:
+                continue
+            early = cfg.path_avoiding([cfg.entry], lambda q: q is nd, writes_types,
+                                      skip_start=False)
+            if early is None:
+                continue
+            n += 1
+            typed = any((fa.startswith('-') and 'xsd_type is None' in fa)
+                        or (fa.startswith('+') and ('is_typed' in fa or 'xsd_type is not None' in fa))
+                        for fa in fs)
+            res.instances.append(f'{f.key}: L{nd.ast.lineno} skip under {sorted(same)[0]}: node '
+                                 f'established typed: {typed}; clear_types resets tree.schema: '
+                                 f'{resets}')
+            if typed or resets:
+                res.ok()
+            else:
+                res.fail(finding('R20.6', f, nd.ast, 'schema application skipped on a cleared tree',
+                                 f'{f.name} returns without typing the tree whenever '
+                                 f'tree.schema is the proxy, but clear_types() keeps tree.schema: '
+                                 f'after `ctx.schema = proxy` on a context that already had it '
+                                 f'(or XPathContext(ctx.root, schema=proxy)) every node is '
+                                 f'untyped and data(v) is untypedAtomic instead of the declared '
+                                 f'type'))
+    counts['apply_schema_skips'] = n
+    if not clearers:
+        raise AnalysisError('no clear_types() resetting xsd_type located')
+    return res
+
+
 def run(ctx) -> dict:
     model: Model = ctx.model
     counts: dict[str, int] = {}
@@ -386,6 +453,7 @@ def run(ctx) -> dict:
         'elementpath.xpath_context'), 0)
     return {
         'results': [r1, r2, r20_3(ctx, counts), r20_4(ctx, counts), r20_5(ctx, counts),
+                    r20_6(ctx, counts),
                     _state], 'counts': counts,
         'explanation':
             'Only the table-shaped necessary condition of "the typed value is an instance of the '
